@@ -1,8 +1,10 @@
 From Coq Require Import Extraction ExtrOcamlBasic.
 From Common Require Import Bytes Drv.
+From GrandpaPayload Require Import Payload.
 From C19 Require Import Model.
 Extraction "model.ml" drv_b2n drv_n2b drv_z_of_n drv_n_of_z drv_nat_of_n drv_n_of_nat
   mkVS mkHdr mkPc new_voter_set new_voter_set_prefix voter_set_spec vs_contains vs_weight
   validate_commit validate_commit_prefix verify_with_voter_set verify_finalizes
   commit_valid_spec ghost_ambiguous ancestry_spec justification_valid_spec
-  members is_equivocator voter_ids spec_weight excess_equivocation equivocating_weight tree_hdr tree_num is_eq_or_desc.
+  members is_equivocator voter_ids spec_weight excess_equivocation equivocating_weight tree_hdr tree_num is_eq_or_desc
+  verify_block_justification verify_block_justification_prefix unit_weights vote_payload.
